@@ -125,32 +125,41 @@ def many_locals(draw):
 
 @st.composite
 def device_id_capture(draw):
-    """register-held device ids captured by a device / stack object inside a function and used after
-    intervening reads (their register must stay reserved as long as the object is used)"""
-    L = [programs.HDR.rstrip("\n"), "def work(a):"]
+    """register-held device ids captured by a device / stack object (inside a function or at module
+    level, from a variable or computed inside the constructor call) and used after intervening reads:
+    their register must stay reserved as long as the object is used"""
+    in_func = draw(st.booleans())
+    ind = "    "
+    arg = "a" if in_func else "d3.Setting"
+    L = [programs.HDR.rstrip("\n"), "def work(a):" if in_func else "while True:"]
     n = draw(st.integers(1, 3))
     kinds = []
     for i in range(n):
         kind = draw(st.sampled_from(["Device", "Stack", "GrowLight", "Stack"]))
         kinds.append(kind)
-        src = draw(st.sampled_from([f"d{i}.ReferenceId", "Autolathes.Minimum.ReferenceId", f"a + {i}"]))
-        L.append(f"    id{i} = {src}")
-        L.append(f"    o{i} = {kind}(ref_id=id{i})")
+        src = draw(st.sampled_from([f"d{i}.ReferenceId", "Autolathes.Minimum.ReferenceId", f"{arg} + {i}", f"d{i}.Setting"]))
+        if draw(st.integers(0, 2)) == 0:
+            # the id is computed inside the constructor call (no variable of its own)
+            L.append(f"{ind}o{i} = {kind}(ref_id={src})")
+        else:
+            L.append(f"{ind}id{i} = {src}")
+            L.append(f"{ind}o{i} = {kind}(ref_id=id{i})")
     for _ in range(draw(st.integers(2, 5))):
         i = draw(st.integers(0, n - 1))
         a = draw(st.integers(0, 9))
         if kinds[i] == "Stack":
-            L.append(draw(st.sampled_from([
-                f"    db.Setting = o{i}[{a}] + o{i}[{a + 1}]", f"    o{i}[{a}] = d4.Setting + o{i}[{a}]",
-                f"    d5.Setting = o{i}[{a}]", f"    o{i}[o{i}[{a}] + 1] = d4.Setting", f"    o{i}[{a}] = o{i}[o{i}[{a + 2}]] * 2"])))
+            L.append(ind + draw(st.sampled_from([
+                f"db.Setting = o{i}[{a}] + o{i}[{a + 1}]", f"o{i}[{a}] = d4.Setting + o{i}[{a}]",
+                f"d5.Setting = o{i}[{a}]", f"o{i}[o{i}[{a}] + 1] = d4.Setting", f"o{i}[{a}] = o{i}[o{i}[{a + 2}]] * 2"])))
         else:
-            L.append(draw(st.sampled_from([
-                f"    db.Setting = o{i}.On + o{i}.Lock", f"    o{i}.On = d4.Setting + o{i}.Power",
-                f"    d5.Setting = o{i}.On", f"    o{i}.Lock = (o{i}.On + 1) * (o{i}.Power - 2)"])))
-    ncall = draw(st.integers(1, 2))
-    L.append("while True:")
-    for k in range(ncall):
-        L.append(f"    work(d3.Setting + {k})")
+            L.append(ind + draw(st.sampled_from([
+                f"db.Setting = o{i}.On + o{i}.Lock", f"o{i}.On = d4.Setting + o{i}.Power",
+                f"d5.Setting = o{i}.On", f"o{i}.Lock = (o{i}.On + 1) * (o{i}.Power - 2)"])))
+    if in_func:
+        ncall = draw(st.integers(1, 2))
+        L.append("while True:")
+        for k in range(ncall):
+            L.append(f"    work(d3.Setting + {k})")
     L.append("    yield_()")
     return {"src": {"": "\n".join(L) + "\n"}, "env_seeds": [draw(st.integers(0, 2**31 - 1))], "pool": [1.0, 2.0, 3.0, 5.0, 8.0, 13.0],
             "family": "device-id-capture"}
